@@ -79,7 +79,10 @@ pub fn case_json(kind: &str, u: &Value, strat: &Strat, cfg: &Cfg, sel: Option<&M
 }
 
 pub fn issue_raw(u: &Value, strat: &Strat, cfg: &Cfg) -> Out<String> {
-    let mut issuer = drive::new_issuer(keys::issuer_enc(cfg.alg, 0), Some(cfg.alg.name()));
+    // the API's defaults are part of the configuration space: with ES256 + decoys the issuer is built
+    // with sign_alg = None (documented default ES256)
+    let alg_arg = if cfg.alg == Alg::ES256 && cfg.decoys { None } else { Some(cfg.alg.name()) };
+    let mut issuer = drive::new_issuer(keys::issuer_enc(cfg.alg, 0), alg_arg);
     drive::issue(&mut issuer, u, strat, cfg.hk.jwk(0), cfg.decoys, cfg.fmt)
 }
 
@@ -259,7 +262,8 @@ pub fn c12_oracle(cred: &Cred) -> Vec<(String, String, String)> {
 pub fn kb_args(cfg: &Cfg) -> KbArgs {
     match cfg.hk {
         Hk::None => KbArgs::none(),
-        hk => KbArgs { nonce: Some(NONCE.into()), aud: Some(AUD.into()), key: hk.enc(0), alg: hk.alg().map(str::to_string) },
+        // ES256 holder key + decoys: sign_alg = None (documented default ES256)
+        hk => KbArgs { nonce: Some(NONCE.into()), aud: Some(AUD.into()), key: hk.enc(0), alg: if hk == Hk::Es && cfg.decoys { None } else { hk.alg().map(str::to_string) } },
     }
 }
 
